@@ -1,4 +1,5 @@
 //! C16: compressed blocks through every sink and source, truncations, damage, allocation.
+use crate::dynval::err_class;
 use crate::util::*;
 use bytes::BytesMut;
 use desert::{BinaryInput, BinaryOutput, DeserializationContext, OwnedInput, SizeCalculator, SliceInput};
@@ -149,6 +150,21 @@ pub fn cases(args: &[String]) {
                     }
                 }
                 format!("flip variants={n} over_bound={over} worst_alloc={worst}")
+            }
+            "huge" => {
+                // a block that does not fit the frame's u32 length field (F18): 2^32 + EXTRA zero bytes
+                // (never touched unless the writer goes on to compress them)
+                let extra: usize = t[1].parse().unwrap();
+                let n = (1usize << 32) + extra;
+                let d = vec![0u8; n];
+                let mut v: Vec<u8> = Vec::new();
+                match v.write_compressed(&d, Compression::fast()) {
+                    Err(e) => format!("huge err {} written={}", err_class(&e), v.len()),
+                    Ok(()) => {
+                        let (ulen, _) = parse_vu(&v).unwrap();
+                        format!("huge ok written={} ulen={ulen} true={n}", v.len())
+                    }
+                }
             }
             "raw" => {
                 let data = unhex(&t[1]);
